@@ -27,7 +27,9 @@ type Explorer struct {
 	Shard          int // this process explores subtrees with hash(depth-2 prefix) % Shards == Shard
 	Shards         int
 
-	memo map[key]int32
+	memo      map[key]int32
+	memoOwner map[key][]int // debugging (VRT_MEMO_DEBUG): the choice prefix that first reached each key
+	memoDesc  map[key]string
 
 	// Body runs as the main thread; Post runs afterwards in the driver's
 	// context (all threads dead) and may add violations to the outcome.
@@ -158,6 +160,10 @@ func (e *Explorer) Run() {
 	}
 	if e.UseMemo {
 		e.memo = map[key]int32{}
+		if os.Getenv("VRT_MEMO_DEBUG") != "" {
+			e.memoOwner = map[key][]int{}
+			e.memoDesc = map[key]string{}
+		}
 	}
 	if e.Found == nil {
 		e.Found = map[string]*Finding{}
@@ -266,6 +272,9 @@ func (e *Explorer) account(x *exec) {
 	}
 	if len(st.Outcomes) < 4096 {
 		st.Outcomes[sig]++
+	}
+	if os.Getenv("VRT_MEMO_DEBUG") != "" {
+		fmt.Fprintf(os.Stderr, "DONE choices=%v sig=%s\n", x.choices, sig)
 	}
 	for _, v := range o.Violations {
 		f, ok := e.Found[v.Key]
